@@ -46,9 +46,15 @@ func init() {
 					add("sm9", "verifH_c13_sm9_unmarshal", P("which", which, "n", n))
 				}
 			}
+			// sm2 legacy (non-SM2 curve, math/big) decryption on hostile ciphertexts
+			for _, n := range []int{66, 80, 96, 97, 98, 129} {
+				for order := 0; order <= 1; order++ {
+					cs = append(cs, driver.Case{Harness: "verifH_c13_sm2_legacy_decrypt", Pkg: "sm2", Config: "purego", Params: P("n", n, "fmt", 4, "order", order), Overrides: sm2Overrides(), MaxUnwind: 4000, MaxPaths: 20000, TimeoutS: 900, Solver: "cvc5", Portfolio: true})
+				}
+			}
 			return cs
 		},
-		Functions:   []string{"pkcs7.ber2der/readObject/isIndefiniteTermination/encodeLength", "pkcs.cbcDecrypt/cbcEncrypt, (*ecbBlockCipher).Decrypt (PBES1/PBES2/PKCS#7/PKCS#8 content decryption)", "cfca.DecryptBySM4CBC", "crypto/cipher CBC (real generic code over UF-E)", "padding.pkcs7Padding.Unpad"},
+		Functions:   []string{"sm2.decryptLegacy, bytesToPoint, crypto/elliptic.Unmarshal (real), rawDecrypt", "pkcs7.ber2der/readObject/isIndefiniteTermination/encodeLength", "pkcs.cbcDecrypt/cbcEncrypt, (*ecbBlockCipher).Decrypt (PBES1/PBES2/PKCS#7/PKCS#8 content decryption)", "cfca.DecryptBySM4CBC", "crypto/cipher CBC (real generic code over UF-E)", "padding.pkcs7Padding.Unpad"},
 		Assumptions: []string{"input = arbitrary byte string of the stated length (all bytes symbolic); every Go run-time panic on a feasible path is a violation; loops carry an unwinding bound derived from the input length"},
 		Bounds:      map[string]string{"quick": "BER reader: every byte string of 0..6 bytes; pkcs CBC/ECB decrypt helpers: block sizes 8/16, IV lengths {0,1,bs-1,bs,bs+1,2bs}, ciphertext lengths {0,1,bs-1,bs,bs+1,2bs,2bs+3} with symbolic contents; cfca.DecryptBySM4CBC on lengths {0,1,15,17,31,33}", "thorough": "BER reader 0..9 bytes"},
 		Outside:     []string{"parsers built on encoding/asn1 reflection, math/big, encoding/pem"},
